@@ -325,9 +325,15 @@ def tie_A(res, client, model, runs, label=None, pre=None):
                 res.violation("%s:crash:rc=%s" % (label, a["rc"]), {"kind": "crash", "client": client, "args": run["args"], "case": a["case"], "cmd": a["cmd"]})
         verdicts = vlib.driver(["replay", model], pre(text) if pre else text)
         vmap = {}
+        snapmap = {}
         for line in verdicts.split("\n"):
             w = line.split(None, 2)
             if len(w) >= 2:
+                if w[0] in ("SNAPOK", "SNAPDIFF"):
+                    # the client dumped the real structure at the quiescent end of the case (SNAP line) and the driver compared it
+                    # with the rendering of the machine's final state (snapOf of Props/C18Reach: reachable => well-formed)
+                    snapmap[w[1]] = (w[0], w[2] if len(w) > 2 else "")
+                    continue
                 vmap[w[1]] = (w[0], w[2] if len(w) > 2 else "")
         for cid, block in vlib.split_cases(text):
             total += 1
@@ -336,6 +342,12 @@ def tie_A(res, client, model, runs, label=None, pre=None):
             var = hdr.get("variant", "?")
             h = (var, end.get("hash"))
             hashes.add(h)
+            if cid in snapmap:
+                res.add("final_structures_compared_with_machine")
+                if snapmap[cid][0] == "SNAPDIFF":
+                    res.violation("%s:%s:final-structure-differs" % (label, var),
+                                  {"kind": "model-divergence", "client": client, "model": model, "args": run["args"], "case": cid, "variant": var,
+                                   "schedule": sched_of(block), "first_divergence": snapmap[cid][1], "block": block[:20000]}, no_input=True)
             if int(end.get("cas_fail", "0")) + int(end.get("yields", "0")) > 0:
                 nontrivial.add(h)
             v = vmap.get(cid, ("MISSING", ""))
